@@ -61,7 +61,8 @@ B_Comp == { <<>>, << <<"mut", 1>> >>, << <<"rem", 1>> >>, << <<"erem", 1, 1>> >>
 B_Types == { << <<"bc", 1>> >>, << <<"bc", 2>> >>, << <<"eev", 1, 1>> >>, << <<"eev", 2, 1>> >>, << <<"eev", 1, 2>> >>,
              << <<"anyev", 1>> >>, << <<"anyev", 2>> >>, << <<"res", 1>> >>, << <<"res", 2>> >>,
              << <<"mut", 1>> >>, << <<"mut", 2>> >>, << <<"ins", 1>> >>, << <<"emut", 1, 1>> >>, << <<"emut", 2, 1>> >> }
-B_World == { << <<"bc", 1>> >>, << <<"res", 1>> >>, << <<"mut", 1>> >>, << <<"ins", 1>> >>, << <<"eev", 1, 1>> >>, << <<"bc", 1>>, <<"mut", 1>> >> }
+B_World == { << <<"bc", 1>> >>, << <<"res", 1>> >>, << <<"mut", 1>> >>, << <<"ins", 1>> >>, << <<"eev", 1, 1>> >>, << <<"bc", 1>>, <<"mut", 1>> >>,
+             << <<"eev", 2, 1>>, <<"res", 1>> >> }
 B_World1 == { << <<"bc", 1>> >>, << <<"mut", 1>> >>, << <<"ins", 1>> >> }
 Init_World == << <<"ins", 1, 1, 1>>, <<"ins", 2, 1, 1>> >>
 Init_Listen == << <<"reg", "persistent", 1, << <<"bc", 1>>, <<"eev", 1, 1>> >>, 0>>,
